@@ -195,7 +195,7 @@ fn emit_enc(em: &mut Emitter, id: String, c: EncCase) {
     if !known.is_empty() {
         tags.push(format!("class:{known}"));
     }
-    let optout = optout(&c.req, &c.resp, &c.size);
+    let optout = optout(c.own(), &c.resp, &c.size);
     let mut ops = vec![format!("EDecode {}", c.req.coq())];
     if let Some(l) = &c.later {
         ops.push(format!("EDecode {}", l.coq()));
@@ -237,9 +237,6 @@ fn emit_enc(em: &mut Emitter, id: String, c: EncCase) {
 }
 
 fn conn_known_class(c: &ConnCase, run: &conn::ConnRun) -> String {
-    if conn::f12_window(c, &run.log, &run.sched) {
-        return "F12-pipelined-context".into();
-    }
     for (i, h) in c.handlers.iter().enumerate() {
         let r = &c.reqs[i];
         if h.resp.status == 304 && !h.size.eofish() && !r.head() {
@@ -317,6 +314,9 @@ fn emit_conn(em: &mut Emitter, id: String, c: ConnCase) {
             let v = conn::v_conn(run);
             let verdict = if optout { Ok(()) } else { conn::oracle_conn(&c, run) };
             let known = conn_known_class(&c, run);
+            if conn::f12_window(&c, &run.log, &run.sched) {
+                tags.push("pipelined-context-window".into());
+            }
             if !known.is_empty() {
                 tags.push(format!("class:{known}"));
             }
